@@ -6,7 +6,7 @@ RULE = ("cases = (address region of the target, offset in page incl. 1-4 bytes s
         "around +/-2^31 from the trampoline, installation flavour); distinct = distinct (region, straddle bytes, next-page protection, "
         "hole class, fake class, flavour) tuples that were decided (installed and called, or refused and checked untouched), plus the async "
         "poll path on three real futures of the binary at natural placement and with the binary's own neighbourhood reserved except one hole "
-        "(first, -64 MiB, +64 MiB, last acceptable page); "
+        "(first, -64 MiB, +64 MiB, last acceptable page); plus two process-level events between installations: fork() and an installation in the child (must work there and leave the parent alone), and all descriptors above stderr closed and their numbers re-used; "
         "cases whose addresses the kernel would not map are inconclusive and not counted")
 
 
